@@ -70,6 +70,7 @@ type Clause struct {
 	Label string
 	E     *SExpr
 	Src   string
+	Local bool // ensures-local: mentions locals of the body; checked at return, not assumed by callers
 }
 
 type LoopSpec struct {
@@ -367,7 +368,7 @@ func (db *SpecDB) loadText(path, text, pkgHint string) error {
 					}
 					db.Scan = append(db.Scan, fmt.Sprintf("nooverflow-assumed %s::%s: %s", cur.Pkg, cur.Name, cur.NoOvf))
 				}
-			case "requires", "ensures", "assumes":
+			case "requires", "ensures", "assumes", "ensures-local":
 				e, err := parseSpecExpr(rest)
 				if err != nil {
 					return fail(l.n, "%v", err)
@@ -377,6 +378,9 @@ func (db *SpecDB) loadText(path, text, pkgHint string) error {
 				case "requires":
 					cur.Requires = append(cur.Requires, cl)
 				case "ensures":
+					cur.Ensures = append(cur.Ensures, cl)
+				case "ensures-local":
+					cl.Local = true
 					cur.Ensures = append(cur.Ensures, cl)
 				default:
 					cur.Assumed = append(cur.Assumed, cl)
